@@ -26,7 +26,7 @@ Total(ev) == Chk("total", TRUE, ev.out.st \in {"ok", "err"})
 
 ALLSEL == [t |-> "ALL"]
 Empty == [case |-> 0, creds |-> {}, ledger |-> {}, jwks |-> {}, honest |-> {}, holders |-> {}, issuers |-> {}, vpairs |-> {}, ppairs |-> {}, mpairs |-> {}]
-Init == l = 1 /\ st = Empty /\ TLCSet(1, <<>>) /\ TLCSet(2, [c \in {"total"} |-> 0]) /\ TLCSet(3, [n |-> 0, mo |-> 0, dl |-> 0])
+Init == l = 1 /\ st = Empty /\ TLCSet(1, <<>>) /\ TLCSet(2, [c \in {"total"} |-> 0]) /\ TLCSet(3, [n0 |-> 0, mo0 |-> 0, n1 |-> 0, mo1 |-> 0, dl1 |-> 0])
 
 Strat(s) == [kind |-> s.kind, paths |-> {s.paths[i].tok : i \in {j \in DOMAIN s.paths : ~s.paths[j].bad}}]
 HasBadPath(s) == \E i \in DOMAIN s.paths : s.paths[i].bad
@@ -40,13 +40,13 @@ HolderOf(inst) == {h \in st.holders : h.inst = inst}
 IssuerPast(inst) == UNION {i.ids : i \in {x \in st.issuers : x.inst = inst}}
 
 (***************************************************************************)
-(* C12 order leak: over all _sd lists with >= 2 real digests, count those  *)
-(* that list the real digests in member order (mo) and those that list all *)
-(* decoys after the real ones (dl).  u: original claims node (with member  *)
+(* C12 order leak: over all _sd lists with >= 2 real digests (n), count    *)
+(* those that list the real digests in member order (mo); over those that  *)
+(* also carry decoys (nd), count those that list all decoys last (dl).  u: original claims node (with member  *)
 (* order u.k), v: concrete payload node, D: digest -> decoded disclosure.  *)
 (***************************************************************************)
-Add3(a, b) == [n |-> a.n + b.n, mo |-> a.mo + b.mo, dl |-> a.dl + b.dl]
-Zero3 == [n |-> 0, mo |-> 0, dl |-> 0]
+Add3(a, b) == [n |-> a.n + b.n, mo |-> a.mo + b.mo, nd |-> a.nd + b.nd, dl |-> a.dl + b.dl]
+Zero3 == [n |-> 0, mo |-> 0, nd |-> 0, dl |-> 0]
 Sum3(s) == LET F[i \in 0..Len(s)] == IF i = 0 THEN Zero3 ELSE Add3(F[i-1], s[i]) IN F[Len(s)]
 RECURSIVE Leak(_,_,_)
 Leak(u, v, D) ==
@@ -60,6 +60,7 @@ Leak(u, v, D) ==
          inDoc == LET F[i \in 0..Len(u.k)] == IF i = 0 THEN <<>> ELSE IF u.k[i] \in hidden THEN Append(F[i-1], u.k[i]) ELSE F[i-1] IN F[Len(u.k)]
          here == IF Cardinality(ri) >= 2
                  THEN [n |-> 1, mo |-> IF inList = inDoc THEN 1 ELSE 0,
+                       nd |-> IF Cardinality(ri) < Len(sdl) THEN 1 ELSE 0,
                        dl |-> IF Cardinality(ri) < Len(sdl) /\ (\A i \in ri, j \in DOMAIN sdl \ ri : i < j) THEN 1 ELSE 0]
                  ELSE Zero3
          digOf(k) == sdl[CHOOSE i \in ri : nameAt(i) = k].v
@@ -115,7 +116,12 @@ OnIssue(ev) ==
               \A p \in {q \in st.mpairs : q.id = ev.mockpair} :
                  /\ p.ids = Ids(m.discs) /\ p.pl = pl /\ p.plb64 = ev.out.plb64
                  /\ ev.alg \in {"HS256", "EdDSA"} => p.jwtid = m.jwt.id)
-       /\ IF ev.decoy /\ IsObj(pl) THEN TLCSet(3, Add3(TLCGet(3), Leak(U, UserPart(pl, ev.hkjwk # NONE, U), D))) ELSE TRUE
+       /\ IF IsObj(pl) /\ IsObj(U)
+          THEN LET k == Leak(U, UserPart(pl, ev.hkjwk # NONE, U), D)  a == TLCGet(3) IN
+               \* two populations: issuances without decoys (member order) and with decoys (member order, decoys last)
+               TLCSet(3, IF ev.decoy THEN [a EXCEPT !.n1 = @ + k.n, !.mo1 = @ + k.mo, !.dl1 = @ + k.dl]
+                                     ELSE [a EXCEPT !.n0 = @ + k.n, !.mo0 = @ + k.mo])
+          ELSE TRUE
        /\ st' = [st EXCEPT
             !.creds = @ \cup {[jwtid |-> m.jwt.id, U |-> U, S |-> S, at |-> MarkRoot(U, S), hkjwk |-> ev.hkjwk, key |-> ev.key, alg |-> ev.alg,
                                pl |-> pl, genuine |-> {[id |-> m.discs[i].id, dg |-> m.discs[i].dg, dec |-> m.discs[i].dec] : i \in DOMAIN m.discs}]},
@@ -141,7 +147,8 @@ OnHolderNew(ev) ==
 RECURSIVE TCH(_,_)
 TCH(v, s) ==
   IF s.t \in {"b", "z"} THEN TRUE
-  ELSE IF s.t = "o" THEN IsObj(v) /\ DOMAIN s.f \subseteq DOMAIN v.f /\ \A k \in DOMAIN s.f : TCH(v.f[k].v, s.f[k])
+  \* false / null select nothing beneath, whatever they are attached to (also a member the holder does not have)
+  ELSE IF s.t = "o" THEN IsObj(v) /\ \A k \in DOMAIN s.f : ~Truthy(s.f[k]) \/ (k \in DOMAIN v.f /\ TCH(v.f[k].v, s.f[k]))
   ELSE IF s.t = "a" THEN IsArr(v) /\ \A i \in DOMAIN s.e : IF i <= Len(v.e) /\ v.e[i] # ABSENT THEN TCH(v.e[i].v, s.e[i]) ELSE s.e[i].t \in {"b", "z"}
   ELSE FALSE
 OnPresent(ev) ==
@@ -176,16 +183,17 @@ OnPresent(ev) ==
               /\ outm.kb.pl.f["iat"].t = "n"
               /\ ev.out.kbsigok)
        /\ Chk("pair.present", ev.pair # 0 /\ (\E p \in st.ppairs : p.id = ev.pair),
-              \A p \in {q \in st.ppairs : q.id = ev.pair} : p.ids = DiscIds(outm))
+              \A p \in {q \in st.ppairs : q.id = ev.pair} : p.ok /\ p.ids = DiscIds(outm) /\ p.haskb = (outm.kb # NoKB))
        /\ st' = [st EXCEPT
             !.honest = IF cred # {} /\ KnownGood(inm)
                        THEN @ \cup {[mid |-> MsgId(outm), jwtid |-> inm.jwt.id, sel |-> ev.sel, tc |-> tc, full |-> (\A c \in cred : DiscIds(inm) = {d.id : d \in c.genuine}),
                                      kb |-> IF kbAll THEN [aud |-> ev.aud, nonce |-> ev.nonce] ELSE NONE]}
                        ELSE @,
             !.ledger = IF kbAll /\ outm.kb # NoKB THEN @ \cup {Signed(ev.key, IF ev.alg = "" THEN "ES256" ELSE ev.alg, outm.kb.id)} ELSE @,
-            !.ppairs = IF ev.pair # 0 THEN @ \cup {[id |-> ev.pair, ids |-> DiscIds(outm)]} ELSE @]
-     ELSE /\ Chk("pair.present.st", ev.pair # 0 /\ (\E p \in st.ppairs : p.id = ev.pair), FALSE)
-          /\ st' = st
+            !.ppairs = IF ev.pair # 0 THEN @ \cup {[id |-> ev.pair, ok |-> TRUE, ids |-> DiscIds(outm), haskb |-> outm.kb # NoKB]} ELSE @]
+     ELSE \* the paired presentation must fail too (and a later successful partner is compared with this failure)
+          /\ Chk("pair.present", ev.pair # 0 /\ (\E p \in st.ppairs : p.id = ev.pair), \A p \in {q \in st.ppairs : q.id = ev.pair} : ~p.ok)
+          /\ st' = IF ev.pair # 0 THEN [st EXCEPT !.ppairs = @ \cup {[id |-> ev.pair, ok |-> FALSE, ids |-> {}, haskb |-> FALSE]}] ELSE st
 
 (***************************************************************************)
 (* Verify                                                                  *)
